@@ -133,3 +133,6 @@ func verifItoa(n int) string        { return strconv.Itoa(n) }
 func verifGlobalsUnchanged() bool   { return true }
 func verifHasPrefix(s, prefix string) bool { return len(s) >= len(prefix) && s[:len(prefix)] == prefix }
 func verifCutErrors(on bool) {}
+
+// extra harness bodies registered for the corpus validation test
+var verifCorpusBodies = map[string]func(string, int){}
